@@ -164,11 +164,11 @@ class Finding:
         self.role = role or kind
         self.confirmed = None
         self.native = None
-        self.prop_hint = None
+        self.variant_source = None
 
     def to_json(self):
         return {"kind": self.kind, "detail": self.detail, "source": self.source, "skeleton": self.skeleton,
-                "confirmed": self.confirmed, "native": self.native, "role": self.role}
+                "confirmed": self.confirmed, "native": self.native, "role": self.role, "variant_source": self.variant_source}
 
 
 def out_differs(a, b):
@@ -384,6 +384,154 @@ class SkeletonChecker:
             self.samples.append({"skeleton": skel, "program": src, "pattern": {str(k): list(v) for k, v in pat.items()},
                                  "vm_paths_so_far": self.stats["vm_paths"]})
         return findings
+
+
+def compare_vm_vm(a, b, compare_value=True):
+    """2-safety comparison of two machine outcomes (C10): same value, same output, same error kind."""
+    for o in (a, b):
+        if o[0] in ("diverged", "undecided", "unsupported"):
+            return None, "not compared: %s / %s" % (a[0], b[0])
+    for o, nm in ((a, "original"), (b, "variant")):
+        if o[0] == "unsafe":
+            return True, "machine precondition violated in the %s: %s" % (nm, o[1])
+    if a[0] != b[0]:
+        return True, "original ends with %s, variant with %s" % (a[:2] if a[0] == "err" else a[0], b[:2] if b[0] == "err" else b[0])
+    od = out_differs(a[2], b[2])
+    if od is True:
+        return True, "printed output differs between original and variant"
+    if od is None:
+        return ByModel(a[2], b[2]), "printed output differs between original and variant"
+    parts = [] if od is False else [od]
+    if a[0] == "err":
+        if a[1] != b[1]:
+            return True, "error kind differs: %s vs %s" % (a[1], b[1])
+    elif compare_value:
+        d = differs(a[1], b[1])
+        if d is True:
+            return True, "final value differs: original %r, variant %r" % (a[1], b[1])
+        if d is not False:
+            parts.append(d)
+    if not parts:
+        return False, "agree"
+    return z3.Or(*parts), "value/output differs between original and variant for some hole values"
+
+
+def check_pair(checker, skel_a, skel_b):
+    """C10: compile both programs with the real compiler, run both under the same holes, ask for a difference."""
+    st = checker.stats
+    st["skeletons"] += 1
+    checker.deadline = time.time() + checker.skeleton_budget_s
+    hs = sorted(set(hole_ids(skel_a)) | set(hole_ids(skel_b)))
+    base = {h: ("class", i) for i, h in enumerate(hs)}
+    d0 = checker.native.dump_many([instantiate(skel_a, base), instantiate(skel_b, base)])
+    if "ast" not in d0[0] or "ast" not in d0[1]:
+        st["parse_errors"] = st.get("parse_errors", 0) + 1
+        return []
+    lits = sorted(set(v for v in fixed_int_literals(d0[0]["ast"]) + fixed_int_literals(d0[1]["ast"]) if v <= MAX_INT))
+    pats = patterns_for(hs, lits, checker.pattern_limit)
+    srcs = []
+    for p in pats:
+        srcs += [instantiate(skel_a, p), instantiate(skel_b, p)]
+    dumps = checker.native.dump_many(srcs)
+    findings = []
+    for i, pat in enumerate(pats):
+        if time.time() > checker.deadline:
+            st["truncated"] += 1
+            break
+        da, db = dumps[2 * i], dumps[2 * i + 1]
+        st["programs"] += 2
+        eng = Engine(checker.solver_timeout_ms)
+        holes = checker._holes(pat)
+        hv = list(holes.values())
+        for h in hv:
+            eng.solver.add(h >= 0, h <= z3.BitVecVal(MAX_INT, W))
+        for x, y in itertools.combinations(hv, 2):
+            eng.solver.add(x != y)
+        for h in hv:
+            for v in lits:
+                eng.solver.add(h != z3.BitVecVal(v, W))
+
+        def model_sources(model):
+            vals = {ph - HOLE_BASE - 1: (model.eval(var, model_completion=True).as_long() if model is not None else 0) for ph, var in holes.items()}
+            return concretize_source(skel_a, pat, vals), concretize_source(skel_b, pat, vals)
+
+        if ("code" in da) != ("code" in db) or ("code" not in da and da["error"]["kind"] != db["error"]["kind"]):
+            m = eng.solver.model() if eng.check() == z3.sat else None
+            sa, sb = model_sources(m)
+            findings.append(Finding("pair", "one program compiles, the other is rejected (or with another error kind)", sa, skel_a + "\n=== variant ===\n" + skel_b, role="pair"))
+            findings[-1].variant_source = sb
+            continue
+        if "code" not in da:
+            continue
+        pa = Program(da["code"], checker.native.optable, holes)
+        pb = Program(db["code"], checker.native.optable, holes)
+        cmpv = bool(da["ast"]) and da["ast"][-1]["s"] == "expr"
+        for out_a, _ in eng.explore(lambda c: Machine(c, max_steps=checker.max_steps).run(pa), checker.max_paths):
+            st["vm_paths"] += 1
+            if time.time() > checker.deadline:
+                break
+            if out_a[0] in ("undecided", "unsupported", "diverged"):
+                st[{"undecided": "undecided", "unsupported": "unsupported", "diverged": "diverged"}[out_a[0]]] += 1
+                continue
+            for out_b, _ in eng.explore(lambda c: Machine(c, max_steps=checker.max_steps * 2).run(pb), 16):
+                st["pairs"] += 1
+                f, text = compare_vm_vm(out_a, out_b, cmpv)
+                if f is None:
+                    st["not_compared"] += 1
+                    continue
+                st["compared"] += 1
+                if f is False:
+                    continue
+                if isinstance(f, ByModel):
+                    r = eng.check()
+                    if r == z3.sat and render(f.a, eng.solver.model()) == render(f.b, eng.solver.model()):
+                        st["undecided"] += 1
+                        continue
+                elif f is True:
+                    r = eng.check()
+                else:
+                    r = eng.check(f)
+                if r == z3.unknown:
+                    st["undecided"] += 1
+                elif r == z3.sat:
+                    sa, sb = model_sources(eng.solver.model())
+                    fd = Finding("pair", text, sa, skel_a + "\n=== variant ===\n" + skel_b, role="pair")
+                    fd.variant_source = sb
+                    findings.append(fd)
+        st["queries"] += eng.queries
+        st["solver_s"] += eng.solver_s
+    if len(checker.samples) < 8:
+        checker.samples.append({"original": skel_a, "variant": skel_b, "patterns": len(pats)})
+    return findings
+
+
+def confirm_pair(native, finding):
+    """Replay both programs against the real interpreter; confirmed when their real outcomes differ (or one crashes)."""
+    res, why, confirmed = {}, [], False
+    for prof in ("dev", "release"):
+        ja = native.eval_one(finding.source, release=(prof == "release"))
+        jb = native.eval_one(finding.variant_source, release=(prof == "release"))
+        if "skipped" in ja["result"] or "skipped" in jb["result"]:
+            continue
+        na, nb = native_outcome(ja), native_outcome(jb)
+        res[prof] = {"original": repr(na)[:200], "variant": repr(nb)[:200], "out_a": ja.get("output", "")[:200], "out_b": jb.get("output", "")[:200]}
+        for n, nm in ((na, "original"), (nb, "variant")):
+            if n[0] in ("panic", "abort", "hang"):
+                confirmed = True
+                why.append("%s: %s %s: %s" % (prof, nm, n[0], str(n[1:])[:100]))
+        if na[0] != nb[0] or (na[0] == "err" and na[1] != nb[1]):
+            confirmed = True
+            why.append("%s: original %r, variant %r" % (prof, na[:2], nb[:2]))
+        elif ja.get("output", "") != jb.get("output", ""):
+            confirmed = True
+            why.append("%s: outputs differ" % prof)
+        elif na[0] == "ok" and differs(na[1], nb[1]) is True:
+            # value only meaningful when the original ends with an expression statement (checked symbolically)
+            confirmed = True
+            why.append("%s: values differ: %r vs %r" % (prof, na[1], nb[1]))
+    finding.confirmed = confirmed
+    finding.native = {"why": why, "runs": res}
+    return confirmed
 
 
 # ------------------------------------------------------------------ native replay (DESIGN section 3)
